@@ -5,6 +5,7 @@ import glob
 import itertools
 import json
 import math
+import numbers
 import os
 import sys
 from fractions import Fraction
@@ -40,6 +41,10 @@ ASSUMPTIONS = [
     "total_shots, shot_unit are non-negative ints (negative / non-integer arguments are not modelled)",
     "measurement groups handed to `_Estimate` are distinct frozensets (a partition), as every factory in the repo produces",
     "an ideal sampler returns, for a requested (circuit, shots>0), counts proportional to the exact outcome distribution of that circuit",
+    "the standard error (`.error`, sample variance / covariance helpers) is outside the property: it is read (before the value, on a quarter of "
+    "the cases) only to check that doing so does not disturb the value",
+    "concurrent / history kernels judge values only when every group received shots (then the demanded value is the exact expectation, "
+    "independent of the allocation); a numpy array of weights with zero sum may fail with another exception class than ZeroDivisionError",
 ]
 
 PN = {1: "X", 2: "Y", 3: "Z"}
@@ -106,8 +111,8 @@ def budget_defect(shots, n_groups, total, unit):
     if len(shots) != n_groups:
         return f"{len(shots)} allocations for {n_groups} groups"
     for s in shots:
-        if type(s) is not int:
-            return f"allocation {s!r} is {type(s).__name__}, not int"
+        if isinstance(s, bool) or not isinstance(s, numbers.Integral):
+            return f"allocation {s!r} is {type(s).__name__}, not an integer"
         if s < 0:
             return f"negative allocation {s}"
         if unit > 0 and s % unit != 0:
@@ -132,7 +137,7 @@ def compare_prop(ctx, what, inp, real, model, ws: list[Fraction], total, unit):
             if r == m:
                 continue
             q = Fraction(total) * w / (W * unit)
-            if type(r) is int and abs(r - m) == unit and near_boundary(q):
+            if isinstance(r, numbers.Integral) and abs(r - m) == unit and near_boundary(q):
                 ctx.count("float_boundary", what)
                 continue
             ok = False
@@ -177,66 +182,117 @@ def gen_weights(rng, n):
     return kind, [rng.random() * rng.choice([1, 10, 1e-3]) for _ in range(n)]
 
 
-def run_alloc_cases(ctx: Ctx, cases):
-    """cases: dict(kind equi|prop|wr, variant generic|operator, ws, total, unit, seed) — real call + model requests"""
+def _mk_allocator(kind, variant, unit, seed, argform):
+    """the allocator under test, constructed positionally / by keyword / with the documented defaults (shot_unit = 1, seed = 1)"""
+    from quri_parts.core.sampling import shots_allocator as SA
+    from quri_parts.core.sampling import weighted_shots_allocator as WA
+
+    if variant == "generic":
+        mk = {"equi": WA.create_equipartition_generic_shots_allocator, "prop": WA.create_proportional_generic_shots_allocator,
+              "wr": WA.create_weighted_random_generic_shots_allocator}[kind]
+    else:
+        mk = {"equi": SA.create_equipartition_shots_allocator, "prop": SA.create_proportional_shots_allocator,
+              "wr": SA.create_weighted_random_shots_allocator}[kind]
+    if argform == "default":
+        return mk()
+    if argform == "keyword":
+        return mk(shot_unit=unit, seed=seed) if kind == "wr" else mk(shot_unit=unit)
+    return mk(seed, unit) if kind == "wr" else mk(unit)
+
+
+def _alloc_call(ctx, al, c, ws, total, judged=True):
+    """one call of the allocator object `al` on the weight vector `ws`; returns (real, fws, order, float weights in iteration order)"""
+    import warnings
+
     import numpy as np
 
     from quri_parts.core.operator import Operator, pauli_label
-    from quri_parts.core.sampling import shots_allocator as SA
-    from quri_parts.core.sampling import weighted_shots_allocator as WA
+
+    kind, variant = c["kind"], c["variant"]
+    n = len(ws)
+    order = list(range(n))
+    fws = []
+    try:
+        if variant == "generic":
+            fws = [generic_weight(w) for w in ws]
+            wform = c.get("wform", "list")
+            arg = list(ws) if wform == "list" else tuple(ws) if wform == "tuple" else np.array(ws)
+            with warnings.catch_warnings():
+                warnings.simplefilter("ignore")
+                out = al(arg, total)
+            real = ("ok", list(out))
+        else:
+            # operator variant: group i = {Z_i} (coefficient ws[i]) or {Z_i, X_{n+i}} with coefficients (a, b), weight sqrt(|a|²+|b|²)
+            op = Operator()
+            sets = []
+            for i, w in enumerate(ws):
+                if isinstance(w, tuple):
+                    a, b = w
+                    la, lb = pauli_label(f"Z{i}"), pauli_label(f"X{n + i}")
+                    op[la] = a
+                    op[lb] = b
+                    sets.append(frozenset({la, lb}))
+                    fws.append(spec_weight([a, b]))
+                else:
+                    la = pauli_label(f"Z{i}")
+                    op[la] = w
+                    sets.append(frozenset({la}))
+                    fws.append(spec_weight([w]))
+            cform = c.get("cform") or ("list" if c.get("as_list", True) else "set")
+            coll = {"list": list, "set": set, "tuple": tuple, "frozenset": frozenset}[cform](sets)
+            order = [sets.index(s) for s in coll]
+            out = al(op, coll, total)
+            got = {}
+            dup = False
+            for st in out:
+                if st.pauli_set in got:
+                    dup = True
+                got[st.pauli_set] = st.n_shots
+            if dup or set(got) != set(sets) or len(list(out)) != len(sets):
+                if judged:
+                    ctx.witness("allocator.one-per-group", f"{kind}/{variant}: allocations do not correspond one-to-one to the groups",
+                                {k: (str(v) if k in ("ws", "prior") else v) for k, v in c.items() if not k.startswith("_")},
+                                {"returned": len(list(out)), "groups": len(sets)})
+                real = ("ok", [got.get(s, -1) for s in sets])
+            else:
+                real = ("ok", [got[s] for s in sets])
+    except Exception as e:  # noqa: BLE001 — the real code's behaviour
+        real = ("err", exc_name(e))
+        if variant == "generic":
+            fws = [generic_weight(w) for w in ws]
+    if variant == "generic":
+        fl = [abs(complex(w)) for w in ws]
+    else:
+        fl = [math.sqrt(sum(abs(complex(x)) ** 2 for x in (w if isinstance(w, tuple) else (w,)))) for w in ws]
+    fl = [fl[i] for i in order] if len(order) == len(fl) else fl
+    return real, fws, order, fl
+
+
+def run_alloc_cases(ctx: Ctx, cases):
+    """cases: dict(kind equi|prop|wr, variant generic|operator, ws, total, unit, seed, + argument forms, + `prior`: earlier calls made on
+    the SAME allocator object) — real call + model requests"""
+    import numpy as np
 
     reqs, metas = [], []
     for c in cases:
         kind, variant, ws, total, unit, seed = c["kind"], c["variant"], c["ws"], c["total"], c["unit"], c.get("seed", 1)
         n = len(ws)
         order = list(range(n))
+        fws = []
+        prior_rec, prior_ok = [], True
         try:
-            if variant == "generic":
-                mk = {"equi": WA.create_equipartition_generic_shots_allocator, "prop": WA.create_proportional_generic_shots_allocator,
-                      "wr": WA.create_weighted_random_generic_shots_allocator}[kind]
-                al = mk(seed, unit) if kind == "wr" else mk(unit)
-                out = al(list(ws), total)
-                real = ("ok", list(out))
-                fws = [generic_weight(w) for w in ws]
-            else:
-                # operator variant: group i = {Z_i} (coefficient ws[i]) or {Z_i, X_{n+i}} with coefficients (a, b), weight sqrt(|a|²+|b|²)
-                op = Operator()
-                sets, fws = [], []
-                for i, w in enumerate(ws):
-                    if isinstance(w, tuple):
-                        a, b = w
-                        la, lb = pauli_label(f"Z{i}"), pauli_label(f"X{n + i}")
-                        op[la] = a
-                        op[lb] = b
-                        sets.append(frozenset({la, lb}))
-                        fws.append(spec_weight([a, b]))
-                    else:
-                        la = pauli_label(f"Z{i}")
-                        op[la] = w
-                        sets.append(frozenset({la}))
-                        fws.append(spec_weight([w]))
-                mk = {"equi": SA.create_equipartition_shots_allocator, "prop": SA.create_proportional_shots_allocator,
-                      "wr": SA.create_weighted_random_shots_allocator}[kind]
-                al = mk(seed, unit) if kind == "wr" else mk(unit)
-                coll = sets if c.get("as_list", True) else set(sets)
-                order = [sets.index(s) for s in coll]
-                out = al(op, coll, total)
-                got = {}
-                dup = False
-                for st in out:
-                    if st.pauli_set in got:
-                        dup = True
-                    got[st.pauli_set] = st.n_shots
-                if dup or set(got) != set(sets) or len(list(out)) != len(sets):
-                    ctx.witness("allocator.one-per-group", f"{kind}/{variant}: allocations do not correspond one-to-one to the groups",
-                                c, {"returned": len(list(out)), "groups": len(sets)})
-                    real = ("ok", [got.get(s, -1) for s in sets])
-                else:
-                    real = ("ok", [got[s] for s in sets])
-        except Exception as e:  # noqa: BLE001 — the real code's behaviour
+            al = _mk_allocator(kind, variant, unit, seed, c.get("argform", "positional"))
+        except Exception as e:  # noqa: BLE001
+            al = None
             real = ("err", exc_name(e))
-            if variant == "generic":
-                fws = [generic_weight(w) for w in ws]
+            fws = [generic_weight(w) if not isinstance(w, tuple) else spec_weight(list(w)) for w in ws]
+        if al is not None:
+            for pws, ptotal in c.get("prior", []):
+                pr, _, _, pfl = _alloc_call(ctx, al, c, pws, ptotal, judged=False)
+                prior_rec.append((pfl, ptotal))
+                if pr[0] != "ok":
+                    prior_ok = False
+            real, fws, order, fl = _alloc_call(ctx, al, c, ws, total)
         nums = common_numerators(fws) if fws else []
         c["_fws"], c["_real"], c["_order"] = fws, real, order
         wtxt = ",".join(map(str, nums))
@@ -250,16 +306,16 @@ def run_alloc_cases(ctx: Ctx, cases):
             out = real[1] if real[0] == "ok" else []
             reqs.append(f"c08alloc wrcheck | {wtxt} | {total} | {unit} | {','.join(map(str, out))}")
             metas.append((c, "wrcheck"))
-            # independent replay of the seed → draw map (in the order the allocator iterated)
-            if real[0] == "ok" and unit > 0 and n > 0 and sum(fws) > 0:
+            # independent replay of the seed → draw map (in the order the allocator iterated); earlier calls on the same allocator
+            # object have advanced the generator
+            if real[0] == "ok" and unit > 0 and n > 0 and sum(fws) > 0 and prior_ok and c.get("wform", "list") != "ndarray" and al is not None:
                 try:
-                    if variant == "generic":
-                        fl = [abs(complex(w)) for w in ws]
-                    else:
-                        fl = [math.sqrt(sum(abs(complex(x)) ** 2 for x in (w if isinstance(w, tuple) else (w,)))) for w in ws]
-                    fl = [fl[i] for i in order]
+                    gen = np.random.default_rng(seed)
+                    for pfl, ptotal in prior_rec:
+                        ps = sum(pfl)
+                        gen.multinomial(ptotal // unit, [x / ps for x in pfl], size=1)
                     s = sum(fl)
-                    draw = np.random.default_rng(seed).multinomial(total // unit, [x / s for x in fl], size=1)[0].tolist()
+                    draw = gen.multinomial(total // unit, [x / s for x in fl], size=1)[0].tolist()
                     by_group = [0] * n
                     for pos, g in enumerate(order):
                         by_group[g] = draw[pos]
@@ -270,11 +326,17 @@ def run_alloc_cases(ctx: Ctx, cases):
     resp = ctx.driver(reqs, entry=ENTRY)
     for (c, tag), r in zip(metas, resp):
         kind, total, unit, real = c["kind"], c["total"], c["unit"], c["_real"]
-        pub = {k: (str(v) if k == "ws" else v) for k, v in c.items() if not k.startswith("_")}
+        pub = {k: (str(v) if k in ("ws", "prior") else v) for k, v in c.items() if not k.startswith("_")}
         what = f"alloc:{kind}/{c['variant']}"
+        # a numpy array of weights with zero sum divides numpy scalars (nan / inf instead of ZeroDivisionError): the property only asks
+        # that a degenerate weight vector is not turned into an allocation, not which exception is raised
+        loose = c.get("wform") == "ndarray"
         if tag == "main" or tag == "wrcheck":
             ctx.traces += 1
             ctx.count("allocator", f"{kind}/{c['variant']}")
+            ctx.count("alloc_arg_container", c.get("wform") or c.get("cform") or "list")
+            ctx.count("alloc_constructor_form", c.get("argform", "positional"))
+            ctx.count("alloc_prior_calls_on_same_object", str(len(c.get("prior", []))))
             ctx.count("alloc_outcome", real[0] if real[0] == "ok" else real[1])
             ctx.case(("alloc", kind, c["variant"], str(c["ws"]), total, unit, c.get("seed", 0)),
                      nontrivial=real[0] == "err" or any(real[1]) if real[0] == "ok" else True,
@@ -286,7 +348,7 @@ def run_alloc_cases(ctx: Ctx, cases):
         if tag == "main":
             model = parse_r(r)
             if real[0] == "err" or model[0] == "err":
-                if real != model:
+                if real != model and not (loose and real[0] == model[0] == "err"):
                     ctx.disagree(what, pub, str(real), str(model))
                 continue
             if kind == "prop":
@@ -295,7 +357,7 @@ def run_alloc_cases(ctx: Ctx, cases):
                 ctx.disagree(what, pub, str(real[1])[:300], str(model[1])[:300])
         elif tag == "wrcheck":
             if r.startswith("err "):
-                if real != ("err", r[4:].strip()):
+                if real != ("err", r[4:].strip()) and not (loose and real[0] == "err"):
                     ctx.disagree(what, pub, str(real), r)
             elif real[0] == "err":
                 ctx.disagree(what, pub, str(real), r)
@@ -318,14 +380,29 @@ def k_allocators(ctx: Ctx):
         unit = rng.choice([0, 1, 1, 1, 2, 3, 4, 10, 50, 100, 128])
         kind = rng.choice(["equi", "prop", "prop", "wr"])
         variant = rng.choice(["generic", "operator"])
+        if rng.random() < 0.06:  # beyond 32 bits (exact weights only above 2^53: the float product is the documented computation)
+            total = rng.choice([2**31 - 1, 2**31 + 7, 2**32, 2**32 + 5, 2**40 + 1])
         c = {"kind": kind, "variant": variant, "ws": ws, "total": total, "unit": unit, "seed": rng.randint(0, 10**6), "wkind": wk}
+        # argument forms: how the allocator is constructed and how the weights / groups are handed over
+        c["argform"] = rng.choice(["positional", "positional", "keyword"])
+        if unit == 1 and rng.random() < 0.3:
+            c["argform"] = "default"
+            c["seed"] = 1
+        if variant == "generic":
+            c["wform"] = rng.choice(["list", "list", "tuple", "ndarray"])
+        # history: earlier calls on the same allocator object (valid ones, so that the generator of the random allocator advances)
+        if unit > 0 and rng.random() < 0.3:
+            c["prior"] = []
+            for _ in range(rng.randint(1, 3)):
+                pn = rng.randint(1, 4)
+                c["prior"].append(([rng.randint(1, 9) for _ in range(pn)], rng.choice([1, 5, 16, 100, 1000])))
         if variant == "operator":
             if n == 0 and rng.random() < 0.5:
                 c["ws"] = []
             elif rng.random() < 0.3 and n > 0:  # two-term groups with Pythagorean coefficients: the weight is exact
                 trip = [(3, 4), (6, 8), (5, 12), (3j, 4), (0.75, 1), (8, 15)]
                 c["ws"] = [rng.choice(trip) if rng.random() < 0.6 else w for w in ws]
-            c["as_list"] = rng.random() < 0.6
+            c["cform"] = rng.choice(["list", "list", "set", "tuple", "frozenset"])
         ctx.count("weights", wk)
         cases.append(c)
     # fixed regression inputs
@@ -359,23 +436,25 @@ def k_allocators(ctx: Ctx):
 CLIFF1 = ["H", "S", "Sdag", "X", "Y", "Z"]
 
 
-def gen_state(rng, n, dyadic):
+def gen_state(rng, n, dyadic, act=None, product=False):
+    qs = list(range(n)) if act is None else list(act)
     gs = []
-    for _ in range(rng.randint(0, 2 * n + 2)):
+    for _ in range(rng.randint(0, 2 * len(qs) + 2)):
         r = rng.random()
-        if n >= 2 and r < 0.3:
-            a, b = rng.sample(range(n), 2)
+        if len(qs) >= 2 and r < 0.3 and not product:
+            a, b = rng.sample(qs, 2)
             gs.append([rng.choice(["CNOT", "CZ"]), [a, b]])
         elif not dyadic and r < 0.6:
-            gs.append([rng.choice(["RX", "RY", "RZ"]), [rng.randrange(n)], rng.uniform(-3.0, 3.0)])
+            gs.append([rng.choice(["RX", "RY", "RZ"]), [rng.choice(qs)], rng.uniform(-3.0, 3.0)])
         else:
-            gs.append([rng.choice(CLIFF1), [rng.randrange(n)]])
+            gs.append([rng.choice(CLIFF1), [rng.choice(qs)]])
     return gs
 
 
-def gen_pauli(rng, n):
-    k = rng.randint(1, n)
-    qs = sorted(rng.sample(range(n), k))
+def gen_pauli(rng, n, act=None):
+    pool = list(range(n)) if act is None else list(act)
+    k = rng.randint(1, len(pool))
+    qs = sorted(rng.sample(pool, k))
     return tuple((q, rng.randint(1, 3)) for q in qs)
 
 
@@ -415,13 +494,27 @@ def greedy_groups(paulis):
     return groups
 
 
-def gen_case(rng, quick=True):
-    n = rng.choice([1, 2, 2, 3, 3, 4])
-    dyadic = rng.random() < 0.6
+ROUTES = ["direct", "direct", "direct", "default", "keyword", "estimator", "concurrent", "cc_estimator", "general", "general_seq", "general_param"]
+
+
+def gen_case(rng, quick=True, wide=False):
+    act = None
+    if wide:
+        # more qubits than a machine word: outcome keys beyond 2^31 / 2^63.  Product states only (computational basis state +
+        # one-qubit Clifford gates on a few active qubits) so that the outcome distribution is computed qubit by qubit.
+        n = rng.choice([33, 40, 64, 65, 70])
+        cand = sorted({0, 1, 30, 31, 32, 33, 62, 63, 64, 65, n - 2, n - 1} & set(range(n)))
+        act = sorted(rng.sample(cand, rng.randint(1, 4)))
+        if rng.random() < 0.7 and (n - 1) not in act:
+            act[-1] = n - 1
+        dyadic = True
+    else:
+        n = rng.choice([1, 2, 2, 3, 3, 4])
+        dyadic = rng.random() < 0.6
     nt = rng.randint(1, 7)
     terms, seen = [], set()
     for _ in range(nt):
-        p = gen_pauli(rng, n)
+        p = gen_pauli(rng, n, act)
         if p in seen:
             continue
         seen.add(p)
@@ -433,7 +526,7 @@ def gen_case(rng, quick=True):
     bare = False
     if rng.random() < 0.08:
         # the observable passed as a bare PauliLabel (an Estimatable; the identity label included)
-        terms = [[[] if rng.random() < 0.4 else [list(x) for x in gen_pauli(rng, n)], 1.0]]
+        terms = [[[] if rng.random() < 0.4 else [list(x) for x in gen_pauli(rng, n, act)], 1.0]]
         bare = True
     fk = rng.choice(["bitwise", "individual", "list", "list", "list"])
     fac = {"kind": fk}
@@ -452,7 +545,11 @@ def gen_case(rng, quick=True):
         fac["own_recs"] = rng.random() < 0.5
         # a different (equally valid) measurement of the same groups: an X on one qubit after the basis change flips that
         # outcome bit and the group's reconstructors undo it — another measurement factory for the same labels
-        fac["flip"] = rng.randrange(n) if rng.random() < 0.35 else None
+        fac["flip"] = (rng.choice(act) if act else rng.randrange(n)) if rng.random() < 0.35 else None
+        # the measurement circuit of a group as a tuple of gates (the library's form), a list, or a circuit object
+        fac["mcform"] = rng.choice(["tuple", "tuple", "list", "circuit"])
+    # what the factory returns: any iterable of measurements
+    fac["ret"] = rng.choice(["list", "list", "tuple", "gen"])
     ak = rng.choice(["equi", "prop", "prop", "wr", "fixed", "fixed"]) if fk == "list" else rng.choice(["equi", "prop", "prop", "wr"])
     al = {"kind": ak, "unit": rng.choice([1, 1, 1, 2, 5, 10, 0 if rng.random() < 0.1 else 1]), "seed": rng.randint(0, 10**6)}
     total = rng.choice([0, 1, 2, 3, 4, 5, 8, 10, 17, 50, 100, 1000, 10000])
@@ -463,17 +560,46 @@ def gen_case(rng, quick=True):
         for p in g:
             gm.update({q: i for q, i in p})
         for _ in range(5):
-            extra = gen_pauli(rng, n)
+            extra = gen_pauli(rng, n, act)
             if extra not in seen and compatible(extra, gm):
                 g.append([list(x) for x in extra])
+                break
+    if fk == "list" and ak in ("equi", "fixed") and rng.random() < 0.12:
+        # … including a whole group of labels the operator does not contain: it is sampled and contributes nothing
+        for _ in range(5):
+            extra = gen_pauli(rng, n, act)
+            if extra not in seen and all(list(map(list, extra)) not in g for g in fac["groups"]):
+                fac["groups"].insert(rng.randint(0, len(fac["groups"])), [[list(x) for x in extra]])
                 break
     if ak == "fixed":
         ng = len([g for g in fac["groups"] if g != [[]]])
         al["shots"] = [rng.choice([0, 0, 1, 2, 5, 8]) for _ in range(ng)]
+        al["ret"] = rng.choice(["frozenset", "frozenset", "list", "tuple", "set"])
         total = max(total, sum(al["shots"]))
     sk = "ideal" if rng.random() < 0.8 else rng.choice(["counts", "counts", "short", "empty"])
-    return {"n": n, "state": gen_state(rng, n, dyadic), "dyadic": dyadic, "op": [[t[0], [complex(t[1]).real, complex(t[1]).imag]] for t in terms],
+    spec = {"n": n, "state": gen_state(rng, n, dyadic, act, product=wide), "dyadic": dyadic,
+            "op": [[t[0], [complex(t[1]).real, complex(t[1]).imag]] for t in terms],
             "factory": fac, "alloc": al, "total": total, "sampler": sk, "sseed": rng.randint(0, 10**6), "bare": bare}
+    # --- argument forms and entry points (every route ends in the same sampling_estimate)
+    spec["route"] = rng.choice(ROUTES)
+    if spec["route"] == "general_param" and not any(g[0] in ("RX", "RY", "RZ") for g in spec["state"]):
+        spec["route"] = "general"
+    spec["sform"] = "cb_gates" if wide else rng.choice(["general", "general", "cb", "cb_gates"])
+    if spec["sform"] != "general":
+        spec["bits"] = rng.getrandbits(n)
+        if spec["sform"] == "cb":
+            spec["state"] = []
+            if spec["route"] == "general_param":
+                spec["route"] = "general"
+    if spec["route"] == "general_param":
+        spec["sform"] = "general"
+    spec["sret"] = rng.choice(["list", "list", "tuple", "gen"])
+    spec["prepret"] = rng.choice(["asis", "asis", "tuple", "gen"])
+    spec["intcoef"] = rng.random() < 0.3
+    spec["err_first"] = rng.random() < 0.25
+    if wide:
+        spec["wide"] = True
+    return spec
 
 
 F2_CASE = {
@@ -482,6 +608,80 @@ F2_CASE = {
     "factory": {"kind": "list", "groups": [[[[0, 3]]], [[[0, 1]]], [[[1, 1]]]]},
     "alloc": {"kind": "prop", "unit": 1, "seed": 1}, "total": 3, "sampler": "ideal", "sseed": 0,
 }
+
+
+class OracleLimit(Exception):
+    """the harness' own product-state oracle cannot handle the circuit (never the real code's fault)"""
+
+
+def prod_states(gates):
+    """per-qubit state vectors of a circuit of one-qubit gates on |0…0⟩ (qubits never touched stay |0⟩)"""
+    import numpy as np
+
+    from oracle import dense
+
+    st = {}
+    for g in gates:
+        wires = list(g.control_indices) + list(g.target_indices)
+        if len(wires) != 1:
+            raise OracleLimit("not a product circuit")
+        m = np.asarray(dense.local_matrix(g.name, tuple(g.params), tuple(g.pauli_ids), None), dtype=complex)
+        st[wires[0]] = m @ st.get(wires[0], np.array([1.0, 0.0], dtype=complex))
+    return st
+
+
+def prod_counts(gates, shots):
+    """exact outcome frequencies of a product circuit: keys are Python ints of any width"""
+    st = prod_states(gates)
+    base, free = 0, []
+    for q, v in sorted(st.items()):
+        p1 = float(abs(v[1]) ** 2)
+        for grid in (0.0, 0.5, 1.0):
+            if abs(p1 - grid) < 1e-9:
+                p1 = grid
+        if p1 == 1.0:
+            base |= 1 << q
+        elif p1 != 0.0:
+            free.append((q, p1))
+    if len(free) > 10:
+        raise OracleLimit("too many undetermined qubits")
+    out = {}
+    for pat in itertools.product([0, 1], repeat=len(free)):
+        k, pr = base, 1.0
+        for (q, p1), bit in zip(free, pat):
+            if bit:
+                k |= 1 << q
+                pr *= p1
+            else:
+                pr *= 1.0 - p1
+        out[k] = pr * shots
+    return out
+
+
+def prod_demanded(state_gates, op_items, groups, shots):
+    """identity term + Σ over groups with shots > 0 of Σ c_P ⟨P⟩, ⟨P⟩ = Π_q ⟨ψ_q|P_q|ψ_q⟩ (no measurement circuit, no reconstructor)"""
+    import numpy as np
+
+    st = prod_states(state_gates)
+    pm = {1: np.array([[0, 1], [1, 0]], dtype=complex), 2: np.array([[0, -1j], [1j, 0]], dtype=complex), 3: np.array([[1, 0], [0, -1]], dtype=complex)}
+    zero = np.array([1.0, 0.0], dtype=complex)
+
+    def ev(p):
+        r = 1.0
+        for q, i in p:
+            v = st.get(q, zero)
+            r *= float(np.real(np.vdot(v, pm[int(i)] @ v)))
+        return r
+
+    coef = {tuple(sorted(p)): c for p, c in op_items}
+    val = complex(coef.get((), 0.0))
+    for g, sh in zip(groups, shots):
+        if sh > 0:
+            for p in g:
+                key = tuple(sorted(p))
+                if key in coef:
+                    val += coef[key] * ev(key)
+    return val
 
 
 class Rec:
@@ -493,6 +693,14 @@ class Rec:
         self.shots_map = None
         self.pairs = None
         self.delivered = None
+        self.oracle_limit = False
+        self.error = None
+        self.value_again = None
+
+
+def mc_gates(mc):
+    """gate list of a measurement circuit given as a sequence of gates or as a circuit object"""
+    return list(getattr(mc, "gates", mc))
 
 
 def build_and_run(spec, route="direct"):
@@ -512,26 +720,59 @@ def build_and_run(spec, route="direct"):
     from quri_parts.core.operator import PAULI_IDENTITY, Operator, pauli_label
     from quri_parts.core.sampling import PauliSamplingSetting
     from quri_parts.core.sampling import shots_allocator as SA
-    from quri_parts.core.state import GeneralCircuitQuantumState
+    from quri_parts.core.state import ComputationalBasisState, GeneralCircuitQuantumState
 
     from oracle import c08ideal
 
     n = spec["n"]
+    route = spec.get("route") or route
+    sform = spec.get("sform", "general")
+    bits = spec.get("bits", 0) if sform != "general" else 0
+    # `circ`: the circuit the ORACLE uses (X on the set bits, then the gates); the state handed to the real code is built separately
     circ = QC.QuantumCircuit(n)
+    for q in range(n):
+        if (bits >> q) & 1:
+            circ.add_gate(QC.X(q))
+    gate_objs = []
     for g in spec["state"]:
         f = getattr(QC, g[0])
-        if g[0] in ("RX", "RY", "RZ"):
-            circ.add_gate(f(g[1][0], g[2]))
-        else:
-            circ.add_gate(f(*g[1]))
-    state = GeneralCircuitQuantumState(n, circ)
+        gate_objs.append(f(g[1][0], g[2]) if g[0] in ("RX", "RY", "RZ") else f(*g[1]))
+    for go in gate_objs:
+        circ.add_gate(go)
+    params = None
+    if route == "general_param":
+        # the same state as a parametric state: every rotation angle is a parameter bound at call time
+        from quri_parts.circuit import ParametricQuantumCircuit
+        from quri_parts.core.state import ParametricCircuitQuantumState
+
+        pc = ParametricQuantumCircuit(n)
+        params = []
+        for g, go in zip(spec["state"], gate_objs):
+            if g[0] in ("RX", "RY", "RZ"):
+                getattr(pc, f"add_Parametric{g[0]}_gate")(g[1][0])
+                params.append(g[2])
+            else:
+                pc.add_gate(go)
+        state = ParametricCircuitQuantumState(n, pc)
+    elif sform == "general":
+        sc = QC.QuantumCircuit(n)
+        for go in gate_objs:
+            sc.add_gate(go)
+        state = GeneralCircuitQuantumState(n, sc)
+    else:
+        state = ComputationalBasisState(n, bits=bits)
+        if sform == "cb_gates":
+            state = state.with_gates_applied(gate_objs)
 
     def lab(p):
         return pauli_label(lab_str([tuple(x) for x in p])) if p else PAULI_IDENTITY
 
     op = Operator()
     for p, (re, im) in spec["op"]:
-        op[lab(p)] = complex(re, im) if im != 0 else re
+        c = complex(re, im) if im != 0 else re
+        if spec.get("intcoef") and im == 0 and float(re).is_integer():
+            c = int(re)  # integer-typed coefficient
+        op[lab(p)] = c
     op_arg = op
     if spec.get("bare") and len(spec["op"]) == 1:
         op_arg = lab(spec["op"][0][0])  # the bare label instead of Operator({label: 1.0})
@@ -562,17 +803,27 @@ def build_and_run(spec, route="direct"):
                     # a reconstructor factory that only knows the labels of its own group
                     def rf(pauli, _ps=ps, _base=base):
                         return _base(pauli) if pauli in _ps else (lambda bits: 0)
+                mcform = spec["factory"].get("mcform", "tuple")
+                if mcform == "list":
+                    mc = list(mc)
+                elif mcform == "circuit" and ps != {PAULI_IDENTITY}:
+                    qc = QC.QuantumCircuit(n)
+                    for gg in mc:
+                        qc.add_gate(gg)
+                    mc = qc
                 ms.append(CommutablePauliSetMeasurementTuple(ps, mc, rf))
         rec.measurements = ms
-        return ms
+        ret = spec["factory"].get("ret", "list")
+        return tuple(ms) if ret == "tuple" else (m for m in ms) if ret == "gen" else ms
 
     al = spec["alloc"]
     if al["kind"] == "fixed":
         non_id = [frozenset(lab(p) for p in g) for g in spec["factory"]["groups"] if g != [[]]]
         table = dict(zip(non_id, al["shots"]))
+        aret = {"frozenset": frozenset, "list": list, "tuple": tuple, "set": set}[al.get("ret", "frozenset")]
 
         def inner(o, pauli_sets, total):
-            return frozenset(PauliSamplingSetting(ps, table[ps]) for ps in pauli_sets)
+            return aret(PauliSamplingSetting(ps, table[ps]) for ps in pauli_sets)
     else:
         mk = {"equi": SA.create_equipartition_shots_allocator, "prop": SA.create_proportional_shots_allocator,
               "wr": SA.create_weighted_random_shots_allocator}[al["kind"]]
@@ -590,7 +841,9 @@ def build_and_run(spec, route="direct"):
 
     def prep(st, ms, shots_map):
         rec.shots_map = dict(shots_map)
-        return get_sampling_circuits_and_shots(st, ms, shots_map)
+        out = get_sampling_circuits_and_shots(st, ms, shots_map)
+        pr = spec.get("prepret", "asis")  # a preparation function may return any iterable of (circuit, shots)
+        return tuple(out) if pr == "tuple" else (x for x in out) if pr == "gen" else out
 
     srng = _random.Random(spec["sseed"])
     sk = spec["sampler"]
@@ -600,30 +853,70 @@ def build_and_run(spec, route="direct"):
         rec.pairs = [(list(c.gates), s, c.qubit_count) for c, s in pairs]
         out = []
         for c, s in pairs:
-            if sk == "ideal":
+            if sk == "ideal" and spec.get("wide"):
+                try:
+                    out.append(prod_counts(c.gates, s))
+                except Exception:  # noqa: BLE001 — limits of the harness' product oracle, not a property of the real code
+                    rec.oracle_limit = True
+                    out.append({0: s})
+            elif sk == "ideal":
                 try:
                     out.append(c08ideal.ideal_counts(n, c.gates, s, 30 if spec["dyadic"] else None))
                 except ValueError:
                     out.append(c08ideal.ideal_counts(n, c.gates, s, None))
             elif sk == "empty" and srng.random() < 0.4:
                 out.append({})
+            elif spec.get("wide"):
+                keys = {srng.getrandbits(n) for _ in range(srng.randint(1, 6))}
+                out.append({k: srng.choice([0, 1, 2, 3, 7, 0.5]) for k in keys})
             else:
                 keys = srng.sample(range(1 << n), srng.randint(1, 1 << n))
                 out.append({k: srng.choice([0, 1, 2, 3, 7, 0.5]) for k in keys})
         if sk == "short" and out:
             out = out[: srng.randint(0, len(out))]
         rec.delivered = out
-        return out
+        sret = spec.get("sret", "list")
+        return tuple(out) if sret == "tuple" else (d for d in out) if sret == "gen" else out
 
     objs = {"state": state, "op": op, "op_arg": op_arg, "factory": factory, "allocator": allocator, "sampler": sampler, "circ": circ}
     try:
-        if route == "direct":
-            est = sampling_estimate(op_arg, state, spec["total"], sampler, factory, allocator, prep)
-        else:
-            from quri_parts.core.estimator.sampling import create_sampling_estimator
+        import quri_parts.core.estimator.sampling as ES
 
-            est = create_sampling_estimator(spec["total"], sampler, factory, allocator)(op_arg, state)
+        T = spec["total"]
+        if route == "direct":
+            est = sampling_estimate(op_arg, state, T, sampler, factory, allocator, prep)
+        elif route == "default":
+            est = sampling_estimate(op_arg, state, T, sampler, factory, allocator)
+        elif route == "keyword":
+            est = sampling_estimate(op=op_arg, state=state, total_shots=T, sampler=sampler, measurement_factory=factory,
+                                    shots_allocator=allocator, circuit_shot_pair_prep_fn=prep)
+        elif route == "concurrent":
+            est = list(ES.concurrent_sampling_estimate([op_arg], [state], T, sampler, factory, allocator, prep))[0]
+        elif route == "cc_estimator":
+            est = list(ES.create_sampling_concurrent_estimator(T, sampler, factory, allocator)([op_arg], [state]))[0]
+        elif route == "general":
+            est = ES.create_general_sampling_estimator(T, sampler, factory, allocator)(op_arg, state)
+        elif route == "general_seq":
+            est = list(ES.create_general_sampling_estimator(T, sampler, factory, allocator)([op_arg], [state]))[0]
+        elif route == "general_param":
+            est = ES.create_general_sampling_estimator(T, sampler, factory, allocator)(op_arg, state, params)
+        else:
+            est = ES.create_sampling_estimator(T, sampler, factory, allocator)(op_arg, state)
+        if spec.get("err_first"):
+            # the standard error is outside the property; reading it first must not disturb the value
+            import warnings
+
+            try:
+                with warnings.catch_warnings():
+                    warnings.simplefilter("ignore")
+                    rec.error = ("ok", est.error)
+            except Exception as e:  # noqa: BLE001
+                rec.error = ("err", exc_name(e))
         v = est.value
+        try:
+            rec.value_again = complex(est.value)
+        except Exception as e:  # noqa: BLE001
+            rec.value_again = exc_name(e)
         return "ok", complex(v), rec, objs
     except Exception as e:  # noqa: BLE001 — behaviour of the real code
         return "err", exc_name(e), rec, objs
@@ -646,6 +939,19 @@ def analyse(ctx: Ctx, spec, mode, reqs1, pend):
     ctx.count("est_allocator", spec["alloc"]["kind"])
     ctx.count("sampler", spec["sampler"])
     ctx.count("real_outcome", "ok" if st == "ok" else val)
+    ctx.count("route", spec.get("route") or "direct")
+    ctx.count("forms", "state=" + spec.get("sform", "general"))
+    ctx.count("forms", "factory_ret=" + spec["factory"].get("ret", "list"))
+    ctx.count("forms", "sampler_ret=" + spec.get("sret", "list"))
+    if spec["factory"]["kind"] == "list":
+        ctx.count("forms", "meas_circuit=" + spec["factory"].get("mcform", "tuple"))
+    if spec.get("wide"):
+        ctx.count("forms", f"wide n={spec['n']}")
+    if rec.error is not None:
+        ctx.count("error_read_first", rec.error[0] if rec.error[0] == "ok" else rec.error[1])
+    if st == "ok" and rec.value_again is not None and not (isinstance(rec.value_again, complex) and (
+            rec.value_again == val or (rec.value_again != rec.value_again and val != val))):
+        ctx.disagree("estimate:value-not-stable", spec, f"second read {rec.value_again}", f"first read {val}")
     # numbering of labels: identity 0, others by first appearance in the operator
     ids = {PAULI_IDENTITY: 0}
     for lbl in op:
@@ -745,15 +1051,24 @@ def analyse(ctx: Ctx, spec, mode, reqs1, pend):
         items = [([tuple(x) for x in sorted(lbl)], op[lbl]) for lbl in op]
         items = [([(q, int(p)) for q, p in lab], c) for lab, c in items]
         groups = [[[(q, int(p)) for q, p in sorted(lbl)] for lbl in m.pauli_set] for m in filt]
-        want = c08ideal.demanded_value(n, objs["circ"].gates, items, groups, shots_g)
+        if spec.get("wide"):
+            try:
+                want = prod_demanded(objs["circ"].gates, items, groups, shots_g)
+            except OracleLimit:
+                rec.oracle_limit = True
+                want = 0j
+        else:
+            want = c08ideal.demanded_value(n, objs["circ"].gates, items, groups, shots_g)
         scale = 1.0 + sum(abs(complex(c)) for c in op.values())
         info["want"] = want
         info["scale"] = scale
         zero_before_pos = any(shots_g[i] == 0 and any(s > 0 for s in shots_g[i + 1:]) for i in range(nG))
         info["zero_before_pos"] = zero_before_pos
-        if st == "err":
+        if rec.oracle_limit:
+            ctx.count("oracle_limit")
+        elif st == "err":
             ctx.witness("sampling_estimate.raises", f"ideal sampling, real code raises {val}", spec, {"demanded": str(want)})
-        elif abs(val - want) > 1e-9 * scale:
+        elif not abs(val - want) <= 1e-9 * scale:
             info["oracle_mismatch"] = True
     pend.append(info)
     return info
@@ -793,7 +1108,9 @@ def check_recon(ctx, info):
             r = m.pauli_reconstructor_factory(lbl)
             fq = info["spec"]["factory"].get("flip")
             fm = (1 << fq) if fq is not None else 0  # the flipped-outcome factory: parity of the un-flipped bits
-            for k in range(1 << info["spec"]["n"]):
+            nq = info["spec"]["n"]
+            ks = range(1 << nq) if nq <= 6 else sorted({int(k) for d in (rec.delivered or []) for k in d} | {0, (1 << nq) - 1})
+            for k in ks:
                 if int(r(k)) != (1 if bin((k ^ fm) & mask).count("1") % 2 == 0 else -1):
                     ctx.disagree("reconstructor-semantics", str(lbl), int(r(k)), "parity on support")
                     return
@@ -875,12 +1192,19 @@ def finish_cases(ctx: Ctx, mode, reqs1, pend):
         # pairing: the requested (circuit, shots) list
         if rec.pairs is not None:
             filt = info.get("filt", [])
+            # the preparation circuit the state object itself reports (a computational-basis state folds Pauli gates into its bits,
+            # which is another property's subject); the VALUE is judged against the harness' own circuit `circ`
             state_gates = list(info["objs"]["circ"].gates)
+            if spec.get("route") != "general_param":
+                try:
+                    state_gates = list(info["objs"]["state"].circuit.gates)
+                except Exception:  # noqa: BLE001
+                    pass
             if len(model_pairs) != len(rec.pairs):
                 ctx.disagree("pairs:length", spec, [(len(g), s) for g, s, _ in rec.pairs], model_pairs)
             else:
                 for (gi, s), (gates, rs, qc) in zip(model_pairs, rec.pairs):
-                    exp_gates = state_gates + list(filt[gi].measurement_circuit) if gi < len(filt) else None
+                    exp_gates = state_gates + mc_gates(filt[gi].measurement_circuit) if gi < len(filt) else None
                     if rs != s or gates != exp_gates or qc != spec["n"]:
                         ctx.disagree("pairs:circuit-or-shots", spec, f"shots {rs}, {len(gates)} gates", f"group {gi} shots {s}")
                         break
@@ -954,7 +1278,7 @@ def k_estimator(ctx: Ctx, mode: str, n_cases: int, with_model: bool = True):
         with open(f) as fh:
             specs.append(json.load(fh))
     specs.append(F2_CASE)
-    specs += [gen_case(rng) for _ in range(n_cases)]
+    specs += [gen_case(rng, wide=rng.random() < 0.12) for _ in range(n_cases)]
     if not ctx.quick() and with_model:
         ex = exhaustive_pairing_cases()
         specs += ex
@@ -981,6 +1305,7 @@ def k_glue(ctx: Ctx, n_cases: int):
     for _ in range(n_cases):
         spec = gen_case(rng)
         spec["sampler"] = "ideal"
+        spec["route"] = None
         a = build_and_run(spec, "direct")
         b = build_and_run(spec, "estimator")
         ctx.traces += 1
@@ -1024,60 +1349,527 @@ def k_glue(ctx: Ctx, n_cases: int):
                                     {"entry_point": str(g[1]), "direct": str(a[1])})
 
 
+def _counts_form(form, d):
+    import collections
+    import types
+
+    if form == "counter":
+        c = collections.Counter()
+        for k, v in d.items():
+            c[k] = v
+        return c
+    if form == "proxy":
+        return types.MappingProxyType(dict(d))
+    if form == "ordered":
+        return collections.OrderedDict(d)
+    return dict(d)
+
+
+def _sign(k, mask):
+    return 1 if bin(k & mask).count("1") % 2 == 0 else -1
+
+
 def k_pauli(ctx: Ctx, n_cases: int):
-    """general_pauli_expectation_estimator alone, arbitrary (non-ideal) count dictionaries"""
-    from quri_parts.core.estimator.sampling.pauli import general_pauli_expectation_estimator
+    """general_pauli_expectation_estimator / trivial_pauli_expectation_estimator alone, arbitrary (non-ideal) count mappings, keys of any
+    width, the library's reconstructor or an arbitrary one"""
+    from quri_parts.core.estimator.sampling import pauli as PM
     from quri_parts.core.measurement import bitwise_pauli_reconstructor_factory
     from quri_parts.core.operator import PAULI_IDENTITY, pauli_label
 
     rng = ctx.rng
     reqs, reals = [], []
     for _ in range(n_cases):
-        n = rng.randint(1, 4)
-        p = gen_pauli(rng, n) if rng.random() < 0.9 else ()
+        wide = rng.random() < 0.15
+        n = rng.choice([33, 64, 65, 70]) if wide else rng.randint(1, 4)
+        act = sorted(rng.sample(sorted({0, 31, 32, 63, 64, n - 1} & set(range(n))), rng.randint(1, 3))) if wide else None
+        p = gen_pauli(rng, n, act) if rng.random() < 0.9 else ()
         lbl = pauli_label(lab_str(p)) if p else PAULI_IDENTITY
         kind = rng.choice(["int", "int", "dyadic", "empty", "zero"])
         if kind == "empty":
             counts = {}
         else:
-            keys = rng.sample(range(1 << n), rng.randint(1, 1 << n))
+            keys = list({rng.getrandbits(n) for _ in range(rng.randint(1, 6))}) if wide else rng.sample(range(1 << n), rng.randint(1, 1 << n))
             counts = {k: (0 if kind == "zero" else rng.randint(0, 50) if kind == "int" else rng.randint(0, 64) / 8) for k in keys}
-        try:
-            real = ("ok", float(general_pauli_expectation_estimator(counts, lbl, bitwise_pauli_reconstructor_factory)))
-        except Exception as e:  # noqa: BLE001
-            real = ("err", exc_name(e))
+        cform = rng.choice(["dict", "dict", "counter", "proxy", "ordered"])
+        route = rng.choice(["general", "general", "trivial", "custom"])
         mask = 0
         for q, _ in p:
             mask |= 1 << q
-        tab = ",".join(f"{k}:{1 if bin(k & mask).count('1') % 2 == 0 else -1}" for k in counts) or "-"
+        table = {k: _sign(k, mask) for k in counts}
+        if route == "custom":  # any reconstructor: an arbitrary sign per outcome
+            table = {k: rng.choice([1, -1]) for k in counts}
+        arg = _counts_form(cform, counts)
+        try:
+            if route == "trivial":
+                v = PM.trivial_pauli_expectation_estimator(arg, lbl)
+            elif route == "custom":
+                v = PM.general_pauli_expectation_estimator(arg, lbl, lambda pauli, _t=table: (lambda bits: _t[bits]))
+            else:
+                v = PM.general_pauli_expectation_estimator(arg, lbl, bitwise_pauli_reconstructor_factory)
+            real = ("ok", float(v))
+        except Exception as e:  # noqa: BLE001
+            real = ("err", exc_name(e))
+        tab = ",".join(f"{k}:{table[k]}" for k in counts) or "-"
         reqs.append(f"c08exp {1 if not p else 0} | {tab} | {enc_counts(counts)}")
-        reals.append((real, lab_str(p), counts))
+        reals.append((real, lab_str(p), counts, route, cform))
         ctx.count("pauli_exp_counts", kind)
-    for (real, ls, counts), r in zip(reals, ctx.driver(reqs, entry=ENTRY)):
+        ctx.count("pauli_exp_route", route + ("/wide" if wide else ""))
+    for (real, ls, counts, route, cform), r in zip(reals, ctx.driver(reqs, entry=ENTRY)):
         ctx.traces += 1
-        ctx.case(("exp", ls, str(sorted(counts.items()))), nontrivial=bool(counts))
+        ctx.case(("exp", ls, str(sorted(counts.items())), route), nontrivial=bool(counts))
+        inp = {"pauli": ls, "counts": counts, "entry": route, "counts_form": cform}
         if r.startswith("err "):
             if real != ("err", r[4:].strip()):
-                ctx.disagree("pauli_expectation", {"pauli": ls, "counts": counts}, str(real), r)
-        elif real[0] != "ok" or abs(float(Fraction(r[3:])) - real[1]) > 1e-12:
-            ctx.disagree("pauli_expectation", {"pauli": ls, "counts": counts}, str(real), r)
+                ctx.disagree("pauli_expectation", inp, str(real), r)
+        elif real[0] != "ok" or not abs(float(Fraction(r[3:])) - real[1]) <= 1e-12:
+            ctx.disagree("pauli_expectation", inp, str(real), r)
+            if real[0] == "ok":
+                ctx.witness("pauli_expectation.value", "the Pauli expectation is not the count-weighted mean of the reconstructed signs", inp,
+                            {"real": real[1], "demanded": str(Fraction(r[3:]))})
+
+
+# ---------------------------------------------------------------------------
+# K3b: general_pauli_sum_expectation_estimator alone (the per-group summand of the estimate)
+# ---------------------------------------------------------------------------
+def gen_pauli_sum_case(rng):
+    wide = rng.random() < 0.15
+    n = rng.choice([33, 64, 65, 70]) if wide else rng.randint(1, 4)
+    act = sorted(rng.sample(sorted({0, 1, 31, 32, 63, 64, n - 1} & set(range(n))), rng.randint(1, 3))) if wide else None
+    cand = []
+    for _ in range(rng.randint(1, 6)):
+        q = gen_pauli(rng, n, act)
+        if q not in cand:
+            cand.append(q)
+    grp = greedy_groups(cand)[0]
+    others = [q for q in cand if q not in grp]
+    pset = [list(map(list, q)) for q in grp]
+    if rng.random() < 0.25:
+        pset.append([])  # the identity label inside the set
+    coefs = []
+    for q in pset:
+        if rng.random() < 0.8:
+            c = gen_coef(rng, True)
+            coefs.append([q, [complex(c).real, complex(c).imag]])
+    for q in others:  # labels only the coefficient mapping knows
+        c = gen_coef(rng, True)
+        coefs.append([list(map(list, q)), [complex(c).real, complex(c).imag]])
+    if rng.random() < 0.3 and not any(not q for q, _ in coefs):
+        coefs.append([[], [rng.randint(-4, 4) / 2, 0.0]])  # an identity coefficient that the set may or may not ask for
+    rng.shuffle(coefs)
+    kind = rng.choice(["int", "int", "dyadic", "empty", "zero"])
+    if kind == "empty":
+        counts = []
+    else:
+        keys = list({rng.getrandbits(n) for _ in range(rng.randint(1, 6))}) if wide else rng.sample(range(1 << n), rng.randint(1, 1 << n))
+        counts = [[k, (0 if kind == "zero" else rng.randint(0, 50) if kind == "int" else rng.randint(0, 64) / 8)] for k in keys]
+    return {"kernel": "pauli_sum", "n": n, "set": pset, "coefs": coefs, "coef_form": rng.choice(["operator", "operator", "dict", "proxy"]),
+            "counts": counts, "counts_form": rng.choice(["dict", "dict", "counter", "proxy"]),
+            "set_form": rng.choice(["frozenset", "frozenset", "set", "list"]),
+            "flip": (rng.choice(act) if act else rng.randrange(n)) if rng.random() < 0.3 else None}
+
+
+def run_pauli_sum_case(ctx: Ctx, spec):
+    import types
+
+    from quri_parts.core.estimator.sampling import pauli as PM
+    from quri_parts.core.measurement import bitwise_pauli_reconstructor_factory
+    from quri_parts.core.operator import PAULI_IDENTITY, Operator, pauli_label
+
+    def lab(q):
+        return pauli_label(lab_str([tuple(x) for x in q])) if q else PAULI_IDENTITY
+
+    labels = [lab(q) for q in spec["set"]]
+    pset = {"frozenset": frozenset, "set": set, "list": list}[spec["set_form"]](labels)
+    cm = {}
+    for q, (re, im) in spec["coefs"]:
+        cm[lab(q)] = complex(re, im) if im != 0 else re
+    coefs = Operator(cm) if spec["coef_form"] == "operator" else types.MappingProxyType(cm) if spec["coef_form"] == "proxy" else cm
+    counts = {int(k): v for k, v in spec["counts"]}
+    fm = (1 << spec["flip"]) if spec["flip"] is not None else 0
+    if fm:
+        def rf(pauli):
+            r0 = bitwise_pauli_reconstructor_factory(pauli)
+            return lambda bits: r0(bits ^ fm)
+    else:
+        rf = bitwise_pauli_reconstructor_factory
+    try:
+        real = ("ok", complex(PM.general_pauli_sum_expectation_estimator(_counts_form(spec["counts_form"], counts), pset, coefs, rf)))
+    except Exception as e:  # noqa: BLE001
+        real = ("err", exc_name(e))
+    # documented behaviour, restated with exact rationals: Σ over the labels in BOTH the set and the coefficient mapping of
+    # c_P · (Σ_k sign_P(k)·n_k / Σ_k n_k); the identity label counts as 1; empty counts are rejected with ValueError as soon as one
+    # expectation is needed; nothing to sum → 0
+    both = [q for q in spec["set"] if any(q2 == q for q2, _ in spec["coefs"])]
+    cdict = {json.dumps(q): c for q, c in spec["coefs"]}
+    tot = sum((Fraction(v) for v in counts.values()), Fraction(0))
+    if not both:
+        want = ("ok", 0j)
+    elif not counts:
+        want = ("err", "ValueError")
+    elif tot == 0 and any(q for q in both):
+        want = ("err", None)  # division by a zero total: some exception, the class is not documented
+    else:
+        re_s, im_s = Fraction(0), Fraction(0)
+        for q in both:
+            cre, cim = cdict[json.dumps(q)]
+            if q:
+                mask = 0
+                for qq, _ in q:
+                    mask |= 1 << qq
+                e = sum((Fraction(v) * _sign(k ^ fm, mask) for k, v in counts.items()), Fraction(0)) / tot
+            else:
+                e = Fraction(1)
+            re_s += Fraction(cre) * e
+            im_s += Fraction(cim) * e
+        want = ("ok", complex(float(re_s), float(im_s)))
+    ctx.traces += 1
+    ctx.case(("psum", canon_spec(spec)), nontrivial=bool(both) and bool(counts))
+    ctx.count("pauli_sum", f"{spec['coef_form']}/{spec['set_form']}/{'wide' if spec['n'] > 32 else 'small'}")
+    scale = 1.0 + sum(abs(complex(*c)) for _, c in spec["coefs"])
+    if want[0] == "err":
+        bad = real[0] != "err" or (want[1] is not None and real[1] != want[1])
+    else:
+        bad = real[0] != "ok" or not abs(real[1] - want[1]) <= 1e-9 * scale
+    if bad:
+        ctx.witness("pauli_sum.value", "general_pauli_sum_expectation_estimator is not Σ c_P·(count-weighted mean of the signs of P) over the "
+                    "labels in both the set and the coefficient mapping", spec, {"real": str(real), "demanded": str(want)})
+
+
+def k_pauli_sum(ctx: Ctx, n_cases: int):
+    for _ in range(n_cases):
+        run_pauli_sum_case(ctx, gen_pauli_sum_case(ctx.rng))
+
+
+# ---------------------------------------------------------------------------
+# K4b / K5: entry points that make SEVERAL estimates with the same sampler / factory / allocator objects
+# ---------------------------------------------------------------------------
+class Session:
+    """shared sampler, measurement factory and allocator objects that log every call"""
+
+    def __init__(self, fkind, akind, unit, flip=None):
+        from quri_parts.core.sampling import shots_allocator as SA
+
+        self.fkind, self.flip = fkind, flip
+        self.inner = {"equi": SA.create_equipartition_shots_allocator, "prop": SA.create_proportional_shots_allocator}[akind](unit)
+        self.alog, self.slog, self.flog = [], [], 0
+
+    def factory(self, o):
+        import quri_parts.circuit as QC
+        from quri_parts.core.measurement import (
+            CommutablePauliSetMeasurementTuple,
+            bitwise_commuting_pauli_measurement,
+            bitwise_pauli_reconstructor_factory,
+            individual_pauli_measurement,
+        )
+
+        self.flog += 1
+        ms = list((bitwise_commuting_pauli_measurement if self.fkind == "bitwise" else individual_pauli_measurement)(o))
+        if self.flip is None:
+            return ms
+        fm = 1 << self.flip
+
+        def rf(pauli):
+            r0 = bitwise_pauli_reconstructor_factory(pauli)
+            return lambda bits: r0(bits ^ fm)
+
+        # another valid measurement of the same groups: outcome bit `flip` inverted by an X, undone by the reconstructors
+        return [CommutablePauliSetMeasurementTuple(m.pauli_set, tuple(m.measurement_circuit) + (QC.X(self.flip),), rf) for m in ms]
+
+    def allocator(self, o, pauli_sets, total):
+        out = self.inner(o, pauli_sets, total)
+        self.alog.append([st.n_shots for st in out])
+        return out
+
+    def sampler(self, pairs):
+        from oracle import c08ideal
+
+        pairs = list(pairs)
+        self.slog.append([s for _, s in pairs])
+        out = []
+        for c, sh in pairs:
+            try:
+                out.append(c08ideal.ideal_counts(c.qubit_count, c.gates, sh, 30))
+            except ValueError:
+                out.append(c08ideal.ideal_counts(c.qubit_count, c.gates, sh, None))
+        return out
+
+    def all_groups_sampled(self):
+        return all(a and min(a) > 0 for a in self.alog)
+
+
+def gen_plain_terms(rng, n):
+    """operator terms with moderate dyadic coefficients (every group gets shots under a generous budget), at least one non-identity"""
+    terms, seen = [], set()
+    for _ in range(rng.randint(1, 5)):
+        q = gen_pauli(rng, n)
+        if q in seen:
+            continue
+        seen.add(q)
+        c = rng.choice([-1, 1]) * rng.randint(2, 16) / 4
+        terms.append([list(map(list, q)), [c, rng.choice([0.0, 0.0, 0.0, 0.5, -1.25])]])
+    if rng.random() < 0.5:
+        terms.insert(rng.randint(0, len(terms)), [[], [rng.randint(-8, 8) / 4, 0.0]])
+    return terms
+
+
+def _mk_op(terms, into=None):
+    from quri_parts.core.operator import PAULI_IDENTITY, Operator, pauli_label
+
+    op = Operator() if into is None else into
+    want = {}
+    for q, (re, im) in terms:
+        lbl = pauli_label(lab_str([tuple(x) for x in q])) if q else PAULI_IDENTITY
+        want[lbl] = complex(re, im) if im != 0 else re
+    for lbl in list(op.keys()):  # in-place update of a caller-owned operator object
+        if lbl not in want:
+            del op[lbl]
+    for lbl, c in want.items():
+        op[lbl] = c
+    return op
+
+
+def _mk_state(n, gates, form="general", bits=0):
+    import quri_parts.circuit as QC
+    from quri_parts.core.state import ComputationalBasisState, GeneralCircuitQuantumState
+
+    gos = [getattr(QC, g[0])(*g[1]) for g in gates]
+    oc = QC.QuantumCircuit(n)
+    if form != "general":
+        for q in range(n):
+            if (bits >> q) & 1:
+                oc.add_gate(QC.X(q))
+    for go in gos:
+        oc.add_gate(go)
+    if form == "general":
+        sc = QC.QuantumCircuit(n)
+        for go in gos:
+            sc.add_gate(go)
+        return GeneralCircuitQuantumState(n, sc), list(oc.gates)
+    return ComputationalBasisState(n, bits=bits).with_gates_applied(gos), list(oc.gates)
+
+
+def exact_expectation(n, gates, terms):
+    """⟨ψ|O|ψ⟩ straight from the state vector: the demanded value when every group received shots"""
+    from oracle import c08ideal
+
+    items = [([(q, int(i)) for q, i in t], complex(*c)) for t, c in terms]
+    return c08ideal.demanded_value(n, gates, items, [[p for p, _ in items if p]], [1])
+
+
+def gen_concurrent_case(rng):
+    n = rng.randint(1, 3)
+    shape = rng.choice(["Nx1", "1xN", "NxN", "NxN", "1x1", "mismatch", "no_op", "no_state"])
+    k = rng.randint(2, 4)
+    n_ops, n_states = {"Nx1": (k, 1), "1xN": (1, k), "NxN": (k, k), "1x1": (1, 1), "mismatch": (k, k + rng.choice([1, 2, -1]) if k > 2 else k + 1),
+                       "no_op": (0, rng.randint(0, 2)), "no_state": (rng.randint(1, 2), 0)}[shape]
+    return {"kernel": "concurrent", "n": n, "shape": shape,
+            "ops": [gen_plain_terms(rng, n) for _ in range(n_ops)],
+            "states": [{"gates": gen_state(rng, n, True), "form": rng.choice(["general", "general", "cb"]), "bits": rng.getrandbits(n)} for _ in range(n_states)],
+            "entry": rng.choice(["function", "function", "function_kw", "created", "general"]),
+            "container": rng.choice(["list", "list", "tuple"]),
+            "fkind": rng.choice(["bitwise", "individual"]), "akind": rng.choice(["equi", "prop"]), "unit": rng.choice([1, 1, 2, 5]),
+            "flip": rng.randrange(n) if rng.random() < 0.3 else None, "total": rng.choice([1000, 4096, 10000])}
+
+
+def run_concurrent_case(ctx: Ctx, spec):
+    import quri_parts.core.estimator.sampling as ES
+
+    n = spec["n"]
+    ses = Session(spec["fkind"], spec["akind"], spec["unit"], spec.get("flip"))
+    ops = [_mk_op(t) for t in spec["ops"]]
+    sts = [_mk_state(n, s["gates"], s["form"], s["bits"]) for s in spec["states"]]
+    cont = list if spec["container"] == "list" else tuple
+    o_arg, s_arg = cont(ops), cont(st for st, _ in sts)
+    T = spec["total"]
+    entry = spec["entry"]
+    try:
+        if entry == "function":
+            res = ES.concurrent_sampling_estimate(o_arg, s_arg, T, ses.sampler, ses.factory, ses.allocator)
+        elif entry == "function_kw":
+            res = ES.concurrent_sampling_estimate(operators=o_arg, states=s_arg, total_shots=T, sampler=ses.sampler,
+                                                  measurement_factory=ses.factory, shots_allocator=ses.allocator)
+        elif entry == "created":
+            res = ES.create_sampling_concurrent_estimator(T, ses.sampler, ses.factory, ses.allocator)(o_arg, s_arg)
+        else:
+            ge = ES.create_general_sampling_estimator(T, ses.sampler, ses.factory, ses.allocator)
+            # the general estimator also takes a single operator / state next to a sequence
+            if len(ops) == 1 and len(sts) > 1 and spec["shape"] == "1xN":
+                res = ge(ops[0], s_arg)
+            elif len(sts) == 1 and len(ops) > 1 and spec["shape"] == "Nx1":
+                res = ge(o_arg, sts[0][0])
+            else:
+                res = ge(o_arg, s_arg)
+        real = ("ok", [complex(r.value) for r in res])
+    except Exception as e:  # noqa: BLE001
+        real = ("err", exc_name(e))
+    ctx.traces += 1
+    ctx.case(("concurrent", canon_spec(spec)), nontrivial=real[0] == "ok")
+    ctx.count("concurrent", f"{spec['shape']}/{entry}:{real[0] if real[0] == 'ok' else real[1]}")
+    n_ops, n_st = len(ops), len(sts)
+    if n_ops == 0 or n_st == 0 or (n_ops > 1 and n_st > 1 and n_ops != n_st):
+        # documented: "No operator specified." / "No state specified." / "Number of operators does not match number of states" → ValueError.
+        # (an empty sequence handed to the general estimator is dispatched before that check and may fail differently)
+        ok = real[0] == "err" and (real[1] == "ValueError" or entry == "general")
+        if not ok or ses.slog:
+            ctx.witness("concurrent_sampling_estimate.rejects", "operators / states that cannot be paired are not rejected with ValueError before sampling",
+                        spec, {"real": str(real)[:200], "sampler_calls": len(ses.slog)})
+        return
+    m = max(n_ops, n_st)
+    pairs = [(spec["ops"][i if n_ops > 1 else 0], sts[i if n_st > 1 else 0][1]) for i in range(m)]
+    want = [exact_expectation(n, g, t) for t, g in pairs]
+    if real[0] == "err":
+        ctx.witness("concurrent_sampling_estimate.value", f"ideal sampling, the concurrent entry point raises {real[1]}", spec, {"demanded": str(want)})
+        return
+    if not ses.all_groups_sampled():
+        ctx.count("concurrent", "skipped:zero-shot-group")
+        return
+    scale = 1.0 + max(sum(abs(complex(*c)) for _, c in t) for t in spec["ops"])
+    if len(real[1]) != m or any(not abs(a - b) <= 1e-9 * scale for a, b in zip(real[1], want)):
+        ctx.witness("concurrent_sampling_estimate.value", "ideal sampling, every group sampled: the i-th estimate is not the exact expectation of "
+                    "the i-th operator on the i-th state (a single operator / state being shared by all)", spec,
+                    {"real": str(real[1]), "demanded": str(want)})
+    for shots in ses.slog:
+        if sum(shots) > T or any((not isinstance(x, numbers.Integral)) or x < 0 or x % spec["unit"] for x in shots):
+            ctx.witness("sampling_estimate.budget", f"requested shots {shots} with a budget of {T} per estimate, unit {spec['unit']}", spec, {"requested": shots})
+            break
+
+
+def k_concurrent(ctx: Ctx, n_cases: int):
+    for _ in range(n_cases):
+        run_concurrent_case(ctx, gen_concurrent_case(ctx.rng))
+
+
+def gen_history_case(rng):
+    """a sequence of estimates through the SAME estimator / sampler / factory / allocator objects; two estimators with different
+    measurement factories for the same labels are interleaved; operator objects are re-used and updated in place between calls"""
+    lazy = rng.random() < 0.4
+    pool_n = rng.randint(1, 3)
+    steps = []
+    base_terms = {}
+    for _ in range(rng.randint(3, 7)):
+        n = rng.randint(1, 3)
+        st = {"n": n, "gates": gen_state(rng, n, True), "form": rng.choice(["general", "general", "cb"]), "bits": rng.getrandbits(n),
+              "est": rng.choice(["A", "A", "B"]), "via": rng.choice(["estimator", "estimator", "direct", "general"]), "obj": None}
+        r = rng.random()
+        if r < 0.35 and n in base_terms:
+            # the same labels as an earlier operator on this width, other coefficients
+            st["terms"] = [[q, [rng.choice([-1, 1]) * rng.randint(2, 16) / 4, 0.0]] for q, _ in base_terms[n]]
+        else:
+            st["terms"] = gen_plain_terms(rng, n)
+            base_terms[n] = st["terms"]
+        if not lazy and rng.random() < 0.5:
+            st["obj"] = rng.randrange(pool_n)  # re-use (and update in place) a caller-owned operator object
+        if rng.random() < 0.15 and len([t for t in st["terms"] if t[0]]) == 1 and not any(not t[0] for t in st["terms"]) and st["terms"][0][1] == [1.0, 0.0]:
+            st["bare"] = True
+        steps.append(st)
+    return {"kernel": "history", "steps": steps, "lazy": lazy, "fkind": rng.choice(["bitwise", "individual"]), "akind": rng.choice(["equi", "prop"]),
+            "unit": rng.choice([1, 1, 2]), "total": rng.choice([1000, 4096]), "order_seed": rng.randint(0, 10**6)}
+
+
+def run_history_case(ctx: Ctx, spec):
+    import random as _random
+
+    import quri_parts.core.estimator.sampling as ES
+
+    T = spec["total"]
+    sesA = Session(spec["fkind"], spec["akind"], spec["unit"], None)
+    sesB = Session(spec["fkind"], spec["akind"], spec["unit"], 0)  # flips outcome bit 0 and undoes it in its reconstructors
+    made = {}
+
+    def estimator(ses, via):
+        key = (id(ses), via)
+        if key not in made:
+            if via == "estimator":
+                made[key] = ES.create_sampling_estimator(T, ses.sampler, ses.factory, ses.allocator)
+            elif via == "general":
+                made[key] = ES.create_general_sampling_estimator(T, ses.sampler, ses.factory, ses.allocator)
+            else:
+                made[key] = lambda o, s: ES.sampling_estimate(o, s, T, ses.sampler, ses.factory, ses.allocator)
+        return made[key]
+
+    pool = {}
+    ests, wants, scales = [], [], []
+    status = None
+    for st in spec["steps"]:
+        ses = sesA if st["est"] == "A" else sesB
+        if st["obj"] is not None:
+            pool[st["obj"]] = op = _mk_op(st["terms"], into=pool.get(st["obj"]))
+        else:
+            op = _mk_op(st["terms"])
+        state, gates = _mk_state(st["n"], st["gates"], st["form"], st["bits"])
+        arg = next(iter(op)) if st.get("bare") else op
+        wants.append(exact_expectation(st["n"], gates, st["terms"]))
+        scales.append(1.0 + sum(abs(complex(*c)) for _, c in st["terms"]))
+        try:
+            e = estimator(ses, st["via"])(arg, state)
+            ests.append(e if spec["lazy"] else complex(e.value))
+        except Exception as ex:  # noqa: BLE001
+            status = exc_name(ex)
+            break
+    vals = []
+    if status is None:
+        if spec["lazy"]:
+            # the estimates are read later, in another order than they were made
+            order = list(range(len(ests)))
+            _random.Random(spec["order_seed"]).shuffle(order)
+            vals = [None] * len(ests)
+            try:
+                for i in order:
+                    vals[i] = complex(ests[i].value)
+            except Exception as ex:  # noqa: BLE001
+                status = exc_name(ex)
+        else:
+            vals = ests
+    ctx.traces += 1
+    ctx.case(("history", canon_spec(spec)), nontrivial=status is None)
+    ctx.count("history", f"{'lazy' if spec['lazy'] else 'eager'}:{status or 'ok'}")
+    if status is not None:
+        ctx.witness("sampling_estimate.history", f"ideal sampling, a sequence of estimates through the same objects raises {status}", spec,
+                    {"demanded": str(wants)})
+        return
+    if not (sesA.all_groups_sampled() and sesB.all_groups_sampled()):
+        ctx.count("history", "skipped:zero-shot-group")
+        return
+    bad = [i for i, (v, w, sc) in enumerate(zip(vals, wants, scales)) if not abs(v - w) <= 1e-9 * sc]
+    if bad:
+        ctx.witness("sampling_estimate.history", "ideal sampling, every group sampled: an estimate made through re-used estimator / sampler / "
+                    "factory / allocator / operator objects is not the exact expectation of ITS operator on ITS state", spec,
+                    {"steps_wrong": bad, "real": str(vals), "demanded": str(wants)})
+
+
+def k_history(ctx: Ctx, n_cases: int):
+    for _ in range(n_cases):
+        run_history_case(ctx, gen_history_case(ctx.rng))
 
 
 def k_rejects(ctx: Ctx):
-    """rejection side: an operator wider than the state is refused before anything is sampled"""
-    spec = dict(F2_CASE)
-    spec["op"] = F2_CASE["op"] + [[[[5, 3]], [1.0, 0.0]]]
-    spec["factory"] = {"kind": "bitwise"}
-    st, val, rec, _ = build_and_run(spec)
-    ctx.case(("reject", "wide-operator"), nontrivial=True)
-    if (st, val) != ("err", "AssertionError") or rec.pairs is not None:
-        ctx.disagree("reject:wide-operator", spec, str((st, val)), "AssertionError before sampling")
+    """rejection side: an observable wider than the state is refused before anything is sampled — an Operator or a bare label, through
+    every entry point"""
+    for bare in (False, True):
+        for route in ("direct", "default", "estimator", "concurrent", "cc_estimator", "general"):
+            spec = dict(F2_CASE)
+            if bare:
+                spec["op"] = [[[[5, 3]], [1.0, 0.0]]]
+                spec["bare"] = True
+            else:
+                spec["op"] = F2_CASE["op"] + [[[[5, 3]], [1.0, 0.0]]]
+            spec["factory"] = {"kind": "bitwise"}
+            spec["route"] = route
+            st, val, rec, _ = build_and_run(spec)
+            ctx.case(("reject", "wide-operator", bare, route), nontrivial=True)
+            if (st, val) != ("err", "AssertionError") or rec.pairs is not None:
+                ctx.disagree("reject:wide-operator", spec, str((st, val)), "AssertionError before sampling")
 
 
 def run(ctx: Ctx, replay=None) -> int:
     ctx.rule = ("cases = (allocator kind × variant, weight vector, total, unit, seed) called directly | (state circuit, operator, measurement "
                 "factory, allocator, total, sampler) through the real sampling_estimate with a recording sampler | (Pauli, count dict) through "
-                "general_pauli_expectation_estimator; real allocation / shots_map / requested (circuit, shots) list / value or exception vs the "
+                "general_/trivial_pauli_expectation_estimator (any key width, any reconstructor) | (Pauli set, coefficient mapping, counts) through "
+                "general_pauli_sum_expectation_estimator vs an exact-rational restatement | (operators × states, container, entry point) through the "
+                "concurrent / general entry points and (sequence of estimates through re-used estimator, sampler, factory, allocator, operator "
+                "objects) vs the exact expectation from the state vector; argument forms (list/tuple/generator returns, circuit objects, "
+                "computational-basis / parametric states, bare labels, integer coefficients, positional/keyword/default constructors, prior calls "
+                "on the same allocator, totals beyond 2^32, outcome keys beyond 2^64) are part of the case; real allocation / shots_map / requested (circuit, shots) list / value or exception vs the "
                 "Lean model (exact integers; values to 1e-9·(1+Σ|c|) against the model's exact rational); the demanded value is recomputed "
                 "from the state vector by oracle/c08ideal.py; distinct = distinct canonical inputs; nontrivial = something was allocated / requested")
     ctx.trusted = TRUSTED
@@ -1097,14 +1889,21 @@ def run(ctx: Ctx, replay=None) -> int:
         reqs1, pend = [], []
         for w in rp.get("witnesses", []) + rp.get("disagreements", []):
             spec = w.get("input")
-            if isinstance(spec, dict) and "state" in spec:
+            if isinstance(spec, dict) and spec.get("kernel") == "pauli_sum":
+                run_pauli_sum_case(ctx, spec)
+            elif isinstance(spec, dict) and spec.get("kernel") == "concurrent":
+                run_concurrent_case(ctx, spec)
+            elif isinstance(spec, dict) and spec.get("kernel") == "history":
+                run_history_case(ctx, spec)
+            elif isinstance(spec, dict) and "state" in spec:
                 analyse(ctx, spec, mode, reqs1, pend)
             elif isinstance(spec, dict) and "kind" in spec:
                 import ast
 
                 spec = dict(spec)
-                if isinstance(spec.get("ws"), str):
-                    spec["ws"] = ast.literal_eval(spec["ws"])
+                for fld in ("ws", "prior"):
+                    if isinstance(spec.get(fld), str):
+                        spec[fld] = ast.literal_eval(spec[fld])
                 run_alloc_cases(ctx, [spec])
         finish_cases(ctx, mode, reqs1, pend)
         return ctx.finish()
@@ -1113,8 +1912,11 @@ def run(ctx: Ctx, replay=None) -> int:
         ctx.extra["pair_mode"] = mode
         k_allocators(ctx)
         k_pauli(ctx, ctx.n(500, 10000))
-        k_estimator(ctx, mode, ctx.n(1000, 25000))
+        k_estimator(ctx, mode, ctx.n(2500, 25000))
         k_glue(ctx, ctx.n(40, 1000))
+        k_pauli_sum(ctx, ctx.n(800, 8000))
+        k_concurrent(ctx, ctx.n(300, 3000))
+        k_history(ctx, ctx.n(250, 2000))
         k_rejects(ctx)
     broken = bool(ctx.failed_obligations or ctx.disagreements)
     if broken:
